@@ -67,6 +67,9 @@ func (c *Concretiser) prepScript(q M) string {
 			st["id"] = id
 		}
 		cols := L(st, "cols")
+		if B(st, "anytype") {
+			c.retype(st)
+		}
 		for _, ov := range L(st, "prog") {
 			op := AsM(ov)
 			if S(op, "op") != "row" {
@@ -91,6 +94,9 @@ func (c *Concretiser) prepScript(q M) string {
 					val, canon := ti.Gen(c.Rng)
 					for canon == "" { // an empty rendering is the "empty" class
 						val, canon = ti.Gen(c.Rng)
+					}
+					if c.Rng.Intn(4) == 0 {
+						val = pointerTo(val) // a non-nil pointer to the value is the value
 					}
 					cell["_val"] = val
 					cell["val"] = pgw.Dig([]byte(canon))
@@ -363,4 +369,69 @@ func (c *Concretiser) badBytes(m M) []byte {
 		return pgw.Typed('p', []byte("good-without-nul"))
 	}
 	return pgw.Typed(ty[0], []byte("junk"))
+}
+
+// pointerTo returns a pointer to a copy of v for the basic Go types.
+func pointerTo(v any) any {
+	switch x := v.(type) {
+	case bool:
+		return &x
+	case int16:
+		return &x
+	case int32:
+		return &x
+	case int64:
+		return &x
+	case float32:
+		return &x
+	case float64:
+		return &x
+	case string:
+		return &x
+	}
+	return v
+}
+
+var allTypes = []int{16, 21, 23, 20, 700, 701, 25, 1043, 17, 2950, 1082, 1114, 1184}
+
+// retype assigns random column types to a statement whose model columns are
+// placeholders; a column holding a non-NULL empty value needs a type whose
+// encoding can be empty in both formats (text, varchar).
+func (c *Concretiser) retype(st M) {
+	cols := L(st, "cols")
+	for j, cv := range cols {
+		needEmpty := false
+		for _, ov := range L(st, "prog") {
+			op := AsM(ov)
+			if S(op, "op") != "row" {
+				continue
+			}
+			cells := L(op, "cells")
+			if j < len(cells) && S(AsM(cells[j]), "c") == "empty" {
+				needEmpty = true
+			}
+		}
+		col := AsM(cv)
+		if needEmpty {
+			col["oid"] = []int{25, 1043}[c.Rng.Intn(2)]
+		} else {
+			col["oid"] = allTypes[c.Rng.Intn(len(allTypes))]
+		}
+		// values of a retyped column are generated afresh
+		for _, ov := range L(st, "prog") {
+			op := AsM(ov)
+			if S(op, "op") != "row" {
+				continue
+			}
+			cells := L(op, "cells")
+			if j < len(cells) {
+				cell := AsM(cells[j])
+				if S(cell, "c") == "v" {
+					delete(cell, "val")
+					delete(cell, "_val")
+				}
+			}
+		}
+	}
+	delete(st, "anytype")
 }
